@@ -82,8 +82,21 @@ class StartWorkflowHandler(StabilizeHandler[StartWorkflow]):
                 return
 
             if execution.is_canceled:
+                # Canceled before it started (store.cancel() by an operator, or purged
+                # from the waiting queue by keep_waiting_pipelines=False): hand it to
+                # the regular cancel path, which cancels the stages and lets
+                # CompleteWorkflow give the workflow its final status - and offer the
+                # slot to the next waiting workflow. Doing nothing here left it
+                # NOT_STARTED for ever.
                 logger.info("Execution %s was canceled before start", execution.id)
-                self._terminate(execution)
+                self.queue.push(
+                    CancelWorkflow(
+                        execution_type=message.execution_type,
+                        execution_id=message.execution_id,
+                        user=execution.canceled_by or "system",
+                        reason=execution.cancellation_reason or "Canceled before start",
+                    )
+                )
                 return
 
             # Check if start time has expired
@@ -227,13 +240,6 @@ class StartWorkflowHandler(StabilizeHandler[StartWorkflow]):
             execution.id,
             len(initial_stages),
         )
-
-    def _terminate(self, execution: Workflow) -> None:
-        """Terminate a canceled execution."""
-        # Publish ExecutionComplete event
-        if execution.pipeline_config_id:
-            # Queue start waiting executions
-            pass
 
     def _is_after_start_time_expiry(self, execution: Workflow) -> bool:
         """Check if current time is past start time expiry."""
